@@ -941,6 +941,47 @@ def gen_cases(ctx, n_per):
         how = rng.choice(['pos', 'pos', 'kw'] if mode == 'meth' else ['pos'])   # the builtin wrappers take no keywords
         clip = ['omit', 'minmax'] if rng.random() < 0.15 else [how, cval]
         cases.append(dict(finish_dict(g, ['nar', 'linlin', mode, recv, args, clip], 'optarg:%s:%s' % (k, mode)), maps=True))
+
+    # operand ALIASING, in every family: with some probability the right operand of a binary node / an extra
+    # argument of an n-ary node is replaced by a copy of the (stateless, lifted) left operand / receiver; the impl
+    # runner builds identical stateless sub-expressions ONCE, so the very same Pattern / Function / ChannelList /
+    # Operand / composite object sits in both positions, directly and inside Pseq / Pn.  The model has no object
+    # identity: each occurrence is an independent stream of the same blueprint, which is what must happen.
+    import copy
+
+    def stateless(e):
+        return not (has_tag(e, 'str') or has_tag(e, 'pstr'))
+
+    def alias(e, st):
+        if not isinstance(e, list) or not e:
+            return e
+        t = e[0]
+        if t == 'bin' and e[1] not in SAFE and top_kind(e[3]) not in ('num', 'seqL', 'seqT') and stateless(e[3]) \
+                and rng.random() < 0.3:
+            st['n'] += 1
+            return ['bin', e[1], e[2], alias(e[3], st), copy.deepcopy(e[3])]
+        if t == 'nar' and e[1] != 'linlin' and e[4] and top_kind(e[3]) not in ('num', 'seqL', 'seqT', 'seqC', 'operand') \
+                and stateless(e[3]) and rng.random() < 0.3:
+            st['n'] += 1
+            args = [copy.deepcopy(e[3]) if rng.random() < 0.6 else a for a in e[4]]
+            return e[:3] + [e[3], args] + e[5:]
+        if t in ('un', 'bin1'):
+            return e[:3] + [alias(e[3], st)]
+        if t == 'bin':
+            return e[:3] + [alias(e[3], st), alias(e[4], st)]
+        if t == 'nar':
+            return e[:3] + [alias(e[3], st), [alias(a, st) for a in e[4]]] + e[5:]
+        if t == 'pseq':
+            return ['pseq', [alias(i, st) for i in e[1]], e[2]]
+        if t == 'pn':
+            return ['pn', alias(e[1], st), e[2]]
+        return e
+    for c in cases:
+        if rng.random() < 0.35:
+            st = {'n': 0}
+            c['e'] = alias(c['e'], st)
+            if st['n']:
+                c['shape'] = c['shape'] + '+alias'
     return cases
 
 
@@ -1092,6 +1133,8 @@ def correspond_lift(ctx):
               'non-trivial = the implementation returned a value (no exception) containing at least one number')
     for k, o in zip(cases, eout):
         c.count('shape:' + k['shape'].split(':')[0])
+        if k['shape'].endswith('+alias'):
+            c.count('aliased operands')
         c.count('result:' + ('exception:' + o[1] if o[0] == 'e' else 'value'))
         if o[0] != 'e' and has_tag(o, 'n'):
             c.nontriv(('e', k['e'], k['pos'], k['kw'], json.dumps(k['fns'])))
